@@ -161,6 +161,9 @@ class C09(Harness):
         except Exception as e:  # noqa
             return {"rejected": type(e).__name__}
         out["rejected"] = None
+        if hasattr(f, "forecasters"):
+            # the member objects handed to the constructor are templates: the composite works on clones of them
+            out["templates_fitted"] = [bool(m.is_fitted) for _, m in f.forecasters if hasattr(m, "is_fitted")]
         out["fitlog"] = list(log)
         del log[:]
         p1 = f.predict()
@@ -249,6 +252,8 @@ class C09(Harness):
         P.eq("cutoff", out["cutoff1"], c1)
         if nb:
             P.eq("cutoff", out["cutoff2"], c2)
+        if "templates_fitted" in out:
+            P.check("members-fitted-on-full-series", not any(out["templates_fitted"]), {"what": "member templates passed to the constructor were fitted in place", "fitted": out["templates_fitted"]})
 
         if kind == "ensemble":
             M = cell["M"]
